@@ -204,6 +204,10 @@ func C13(r *h.Run) {
 		}
 		return nil
 	}, hopts...))
+	mux.Handle("/verif.Svc/FailFirst", connect.NewServerStreamHandler("/verif.Svc/FailFirst", func(_ context.Context, req *connect.Request[h.Raw], s *connect.ServerStream[h.Raw]) error {
+		s.ResponseTrailer().Set("X-Trl", h.Hex(req.Msg.B[:minInt(len(req.Msg.B), 16)]))
+		return connect.NewError(connect.CodeAborted, errors.New("failed before the first message"))
+	}, hopts...))
 	mux.Handle("/verif.Svc/Bidi", connect.NewBidiStreamHandler("/verif.Svc/Bidi", func(_ context.Context, s *connect.BidiStream[h.Raw, h.Raw]) error {
 		for {
 			m, err := s.Receive()
@@ -226,6 +230,7 @@ func C13(r *h.Run) {
 		client *connect.Client[h.Raw, h.Raw]
 		server *connect.Client[h.Raw, h.Raw]
 		bidi   *connect.Client[h.Raw, h.Raw]
+		failer *connect.Client[h.Raw, h.Raw]
 	}
 	mk := func(name string, opts ...connect.ClientOption) cset {
 		opts = append(opts, connect.WithCodec(h.ToyCodec{Poison: true}), h.WithAcceptTag("tagA"), connect.WithCompressMinBytes(8))
@@ -233,7 +238,8 @@ func C13(r *h.Run) {
 			connect.NewClient[h.Raw, h.Raw](srv.Client(), srv.URL+"/verif.Svc/Unary", opts...),
 			connect.NewClient[h.Raw, h.Raw](srv.Client(), srv.URL+"/verif.Svc/Client", opts...),
 			connect.NewClient[h.Raw, h.Raw](srv.Client(), srv.URL+"/verif.Svc/Server", opts...),
-			connect.NewClient[h.Raw, h.Raw](srv.Client(), srv.URL+"/verif.Svc/Bidi", opts...)}
+			connect.NewClient[h.Raw, h.Raw](srv.Client(), srv.URL+"/verif.Svc/Bidi", opts...),
+			connect.NewClient[h.Raw, h.Raw](srv.Client(), srv.URL+"/verif.Svc/FailFirst", opts...)}
 	}
 	sets := []cset{mk("connect"), mk("connect+tagA", connect.WithSendCompression("tagA")), mk("grpc", connect.WithGRPC()),
 		mk("grpc+tagA", connect.WithGRPC(), connect.WithSendCompression("tagA")), mk("grpcweb", connect.WithGRPCWeb()), mk("connect+gzip", connect.WithSendGzip())}
@@ -269,7 +275,30 @@ func C13(r *h.Run) {
 				size := sizes[lr.Intn(len(sizes))]
 				in := map[string]any{"goroutine": g, "call": k, "client": cs.name, "size": size}
 				calls.Add(1)
-				switch lr.Intn(6) {
+				switch lr.Intn(7) {
+				case 6:
+					// the caller looks at the header and trailer maps it is handed BEFORE its first
+					// Receive; the handler fails before its first message (trailers-only over gRPC-Web)
+					p := payload(g, k, size, 'F')
+					st, err := cs.failer.CallServerStream(context.Background(), connect.NewRequest(&h.Raw{B: p}))
+					if err != nil {
+						break
+					}
+					n := 0
+					for _, vs := range st.ResponseTrailer() {
+						n += len(vs)
+					}
+					for _, vs := range st.ResponseHeader() {
+						n += len(vs)
+					}
+					_ = n
+					for st.Receive() {
+					}
+					var ce *connect.Error
+					if err := st.Err(); err == nil || !errors.As(err, &ce) || ce.Code() != connect.CodeAborted || ce.Meta().Get("X-Trl") != h.Hex(p[:minInt(len(p), 16)]) {
+						fail("server stream failing before its first message: the error or its trailer belongs to another call", in)
+					}
+					_ = st.Close()
 				case 5:
 					p := payload(g, k, size, 'N') // handler answers with the shared sentinel error
 					_, err := cs.unary.CallUnary(context.Background(), connect.NewRequest(&h.Raw{B: p}))
